@@ -22,12 +22,15 @@ Drop(s, n) == SubSeq(s, n + 1, Len(s))
 StartsWith(s, p) == Len(s) >= Len(p) /\ Take(s, Len(p)) = p
 Min(a, b) == IF a <= b THEN a ELSE b
 
-\* least i >= from such that p occurs in s at i; 0 when there is none
+\* least i >= from such that p occurs in s at i; 0 when there is none.  The string is searched in windows
+\* of 32 positions so that the recursion depth stays small for strings of several KiB (TLC's cost per
+\* evaluation grows with the depth of the recursion).
 RECURSIVE Find(_, _, _)
 Find(s, p, from) ==
   IF from + Len(p) - 1 > Len(s) THEN 0
-  ELSE IF SubSeq(s, from, from + Len(p) - 1) = p THEN from
-  ELSE Find(s, p, from + 1)
+  ELSE LET hi   == Min(from + 31, Len(s) - Len(p) + 1)
+           hits == { i \in from..hi : SubSeq(s, i, i + Len(p) - 1) = p }
+       IN IF hits # {} THEN CHOOSE i \in hits : \A j \in hits : i <= j ELSE Find(s, p, hi + 1)
 
 RECURSIVE LFPositions(_, _)
 LFPositions(s, from) == LET i == Find(s, LF, from) IN IF i = 0 THEN <<>> ELSE <<i>> \o LFPositions(s, i + 1)
@@ -166,17 +169,32 @@ HeaderBlock(h) == IF h = <<>> THEN "" ELSE Head(h).n \o ": " \o Head(h).v \o CRL
 RenderResp(r, ph) == StatusLine(r.version, r.code, ph) \o CRLF \o HeaderBlock(r.headers) \o CRLF \o r.body
 
 \* Set-Cookie (RFC 6265 4.1): cookie-pair *( "; " cookie-av ).  c.attrs is the set of attributes present.
+\* The lifetime of a cookie is a std::time::Duration: c.maxage is its whole seconds as a string of decimal
+\* digits (a u64 - far beyond TLC's 32-bit integers, so it is never converted to a number), c.millis its
+\* sub-second part 0..999.  Max-Age takes whole seconds (RFC 6265 5.2.2: 1*DIGIT); neither RFC 6265 nor the
+\* documentation of SetCookie::with_max_age says what becomes of a fraction, so both truncation (what the
+\* code does, Duration::as_secs) and rounding to the nearest second are accepted: MaxAgeValues.
 AttrNames == {"Expires", "Max-Age", "Domain", "Path", "SameSite", "Secure", "HttpOnly"}
 AttrOrder == <<"Expires", "Max-Age", "Domain", "Path", "SameSite", "Secure", "HttpOnly">>
-CookieAv(c, a) ==
+\* successor of a natural number written in decimal
+RECURSIVE DecSucc(_)
+DecSucc(s) == IF s = "" THEN "1"
+              ELSE LET d == DecMap[At(s, Len(s))] IN
+                   IF d < 9 THEN Take(s, Len(s) - 1) \o At(DecDigits, d + 2) ELSE DecSucc(Take(s, Len(s) - 1)) \o "0"
+IsDecimal(s) == s # "" /\ \A i \in 1..Len(s) : At(s, i) \in DOMAIN DecMap
+MaxAgeValues(c) == {c.maxage} \cup (IF c.millis >= 500 THEN {DecSucc(c.maxage)} ELSE {})
+CookieAvWith(c, a, ma) ==
   CASE a = "Expires"  -> "Expires=" \o c.expires
-    [] a = "Max-Age"  -> "Max-Age=" \o Dec(c.maxage)
+    [] a = "Max-Age"  -> "Max-Age=" \o ma
     [] a = "Domain"   -> "Domain=" \o c.domain
     [] a = "Path"     -> "Path=" \o c.path
     [] a = "SameSite" -> "SameSite=" \o c.samesite
     [] a = "Secure"   -> "Secure"
     [] a = "HttpOnly" -> "HttpOnly"
+CookieAv(c, a) == CookieAvWith(c, a, c.maxage)
 CookieAvs(c) == { CookieAv(c, a) : a \in c.attrs }
+\* the acceptable attribute sets (one per acceptable Max-Age)
+CookieAvSets(c) == { { CookieAvWith(c, a, ma) : a \in c.attrs } : ma \in MaxAgeValues(c) }
 RECURSIVE AvString(_, _)
 AvString(c, i) == IF i > Len(AttrOrder) THEN ""
                   ELSE (IF AttrOrder[i] \in c.attrs THEN "; " \o CookieAv(c, AttrOrder[i]) ELSE "") \o AvString(c, i + 1)
@@ -188,7 +206,8 @@ SplitOn(s, sep) == LET i == Find(s, sep, 1) IN
 DenoteSetCookie(s) == LET parts == SplitOn(s, "; ") IN
                       [pair |-> Head(parts), avs |-> {parts[i] : i \in 2..Len(parts)}, n |-> Len(parts) - 1]
 CookieMeans(s, c) == LET d == DenoteSetCookie(s) IN
-                     d.pair = c.name \o "=" \o c.value /\ d.avs = CookieAvs(c) /\ d.n = Cardinality(c.attrs)
+                     /\ IsDecimal(c.maxage)
+                     /\ d.pair = c.name \o "=" \o c.value /\ d.avs \in CookieAvSets(c) /\ d.n = Cardinality(c.attrs)
 
 \* A conforming server's wire image.  style: [case: "asis"|"lower"|"upper", ows: whitespace after the colon].
 \* frames: <<text1, data1, text2, data2, ..., textN>> - odd elements are protocol text, even elements are
